@@ -179,7 +179,7 @@ Definition lookup (f : fs) (p : rpath) : option node :=
 Definition fs_remove (f : fs) (p : rpath) : fs := filter (fun qn => negb (rpath_eqb (fst qn) p)) f.
 Definition fs_set (f : fs) (p : rpath) (n : node) : fs := (p, n) :: fs_remove f p.
 
-Inductive exn := XBad7z | XExist | XIsDir | XNotDir | XNoEnt | XLoop | XDecomp | XAttr.
+Inductive exn := XBad7z | XExist | XIsDir | XNotDir | XNoEnt | XLoop | XDecomp | XAttr | XType.
 
 Inductive rres :=
 | RFound (p : rpath) (n : node)      (* exists at real path p *)
@@ -369,7 +369,7 @@ Definition run_op (cwd : rpath) (o : fsop) : M Z :=
 
 Definition exn_code (x : exn) : Z :=
   match x with XBad7z => 1 | XExist => 2 | XIsDir => 3 | XNotDir => 4 | XNoEnt => 5 | XLoop => 6
-             | XDecomp => 7 | XAttr => 8 end.
+             | XDecomp => 7 | XAttr => 8 | XType => 9 end.
 
 (* every operation is run (an exception of one does not stop the sequence); result codes:
    0 / 1 for values, -(code) for exceptions *)
